@@ -1,3 +1,80 @@
-namespace Placeholder
-theorem placeholder_C08 : True := trivial
-end Placeholder
+import Proofs.Spawn
+/-!
+# C08  No pipe end leaks into a child: end-of-file always propagates
+
+Single spawning thread (the multi-thread window between `pipe()` and `fcntl()` is the known
+finding `C08:concurrent-spawn-window`).  Theorems about `Spawn.parentRun`, for every configuration
+and every list of operating-system answers.
+-/
+namespace Spawn
+
+/-- **C08 (every library-created descriptor that survives in the parent is close-on-exec, and was
+    made so before the fork).**  In the state in which the pre-fork part ends — hence at the moment
+    of the `fork` — the parent end of every stream pipe is among the descriptors on which
+    `F_SETFD(old | FD_CLOEXEC)` was issued successfully, and so is every descriptor recorded as
+    marked; nothing has been closed or waited for yet. -/
+theorem c08_parent_ends_cloexec (c : Cfg) (rs : List SResp) :
+    let A := acquireAll (stagesOf c) (s0 c) rs
+    (∀ r w, A.s.pipes.pin = some (r, w) → w ∈ cloexecd A.s.calls) ∧
+    (∀ r w, A.s.pipes.pout = some (r, w) → r ∈ cloexecd A.s.calls) ∧
+    (∀ r w, A.s.pipes.perr = some (r, w) → r ∈ cloexecd A.s.calls) := by
+  intro A
+  obtain ⟨-, -, -, -, -, -, hm, h1, h2, h3, -⟩ := prefork_facts c rs
+  exact ⟨fun r w h => hm _ (h1 r w h), fun r w h => hm _ (h2 r w h), fun r w h => hm _ (h3 r w h)⟩
+
+/-- the status channel: once the status pipe exists, a run that gets past the two `cloexec` steps
+    has marked both of its ends -/
+theorem status_marked (s : AState) (rs : List SResp) (sr sw : Nat) (hs : s.status = some (sr, sw)) :
+    (acquireAll [.cloexecStatusR, .cloexecStatusW] s rs).fail = none →
+      sr ∈ (acquireAll [.cloexecStatusR, .cloexecStatusW] s rs).s.marked ∧
+      sw ∈ (acquireAll [.cloexecStatusR, .cloexecStatusW] s rs).s.marked := by
+  intro h
+  simp only [acquireAll, acquire, hs] at h ⊢
+  cases h1 : (cloexec sr rs).2.1 with
+  | some e => simp [h1] at h
+  | none =>
+    simp only [h1, Option.map_none] at h ⊢
+    cases h2 : (cloexec sw (cloexec sr rs).2.2).2.1 with
+    | some e => simp [h2] at h
+    | none => simp [h2]
+
+/-- the child closes its copy of the status read end first of all, and releases every owned child
+    end right after duplicating it onto 0/1/2 (see C05 for the resulting table) -/
+theorem c08_child_closes_status_read (c : Cfg) (p : Pipes) (sr : Nat) :
+    (childSteps c p sr).head? = some (.close sr) := by
+  simp [childSteps]
+
+theorem afterRead_prefix (c : Cfg) (s : AState) (calls : List SCall) (d : List SResp) :
+    ∃ tail, (afterRead c s calls d).calls = calls ++ tail := by
+  unfold afterRead
+  split
+  · exact ⟨_, rfl⟩
+  · exact ⟨_, by simp only [List.append_assoc]; rfl⟩
+  · exact ⟨_, by simp only [List.append_assoc]; rfl⟩
+  · exact ⟨_, by simp only [List.append_assoc]; rfl⟩
+  · exact ⟨[], by simp⟩
+
+/-- the parent releases the child ends and the status write end right after the fork, before it
+    reads the status: afterwards it holds no descriptor through which a child could be kept from
+    seeing end-of-file, except the ends exposed in the `Popen` -/
+theorem c08_parent_releases_child_ends (c : Cfg) (s : AState) (rs : List SResp) :
+    ∀ f ∈ statusW s :: ownedEnds c s.pipes, f ∈ closedBy (afterFork c s rs).calls := by
+  intro f hf
+  unfold afterFork
+  obtain ⟨tail, ht⟩ := afterRead_prefix c s
+    (s.calls ++ closeAll (ownedEnds c s.pipes) ++ [.close (statusW s), .readStatus (statusR s)])
+    (rs.drop ((ownedEnds c s.pipes).length + 1))
+  rw [ht]
+  simp only [closedBy_append, closedBy_closeAll, List.mem_append]
+  simp only [List.mem_cons] at hf
+  rcases hf with rfl | hf
+  · left; right; simp [closedBy]
+  · left; left; right; exact hf
+
+/-! ### Non-vacuity (tests, labelled as tests) -/
+def cfgP : Cfg := { sin := .pipe, sout := .none, serr := .none, detached := false, cwd := false, uid := none, gid := none,
+                    pgid := false, argvEmpty := false, nul := false, ncand := 1 }
+example : cloexecd (parentRun cfgP
+    [.fds 3 4, .val 0, .ok, .val 0, .ok, .fds 5 6, .val 0, .ok, .ok, .ok, .ok, .nbytes 0 0, .ok]).calls = [3, 4, 6] := by decide
+
+end Spawn
